@@ -672,7 +672,29 @@ func (s *Module) AddContractStorageItems(kvs []storage.KeyValue) error {
 	return nil
 }
 
+// restoreNode restores the given node at all the paths it's requested for and then the
+// already stored nodes that become reachable through it. Everything stored in process
+// (a reference per path, contract storage items of leaves) must reach the underlying store
+// at once: the store can be flushed at any moment, and after a restart a node found in the
+// DB is considered to be restored at all the paths leading to it.
 func (s *Module) restoreNode(n mpt.Node) error {
+	var (
+		store = s.billet.Store
+		batch = storage.NewPrivateMemCachedStore(store)
+	)
+	s.billet.Store = batch
+	err := s.restoreNodeInternal(n)
+	s.billet.Store = store
+	if err != nil {
+		return err
+	}
+	if _, err = batch.Persist(); err != nil {
+		return fmt.Errorf("failed to store MPT node with hash %s: %w", n.Hash().StringBE(), err)
+	}
+	return nil
+}
+
+func (s *Module) restoreNodeInternal(n mpt.Node) error {
 	if n.Type() == mpt.EmptyT {
 		return errors.New("unexpected EmptyNode in MPT data")
 	}
@@ -699,7 +721,7 @@ func (s *Module) restoreNode(n mpt.Node) error {
 	for h := range childrenPaths {
 		if child, err := s.billet.GetFromStore(h); err == nil {
 			// child is already in the storage, so we don't need to request it one more time.
-			err = s.restoreNode(child)
+			err = s.restoreNodeInternal(child)
 			if err != nil {
 				return fmt.Errorf("unable to restore saved children: %w", err)
 			}
